@@ -249,3 +249,8 @@ def pool_target2(x):
         raise PoolDeath(x)
     time.sleep(0.002)
     return ['res', x]
+
+
+def ctx_target(x, tag='?', *, mul=1):
+    """C18 context target: the context's defaults (tag, mul) identify the context."""
+    return [tag, x * mul]
